@@ -12,7 +12,7 @@ from vf.bounded import Tally
 from vf.pyvc import extract
 
 MOD = "debian.deb822"
-KEYS = ["a", "A", "b", "B", "c", "Xy", "xY", "XY"]
+KEYS = ["a", "A", "b", "B", "c", "Xy", "xY", "XY", "Vcs_Git", "VcsBrowser", "vcs-git", "a_b", "aB", "a^"]
 
 
 def find(model, k):
@@ -57,6 +57,13 @@ def start_state(real, rng):
         d = real.Deb822Dict(_dict=list(pairs))      # list of 2-tuples, as Deb822Dict documents
         return kind, d, list(pairs)
     text = "".join("%s: %s\n" % (k, v) for k, v in pairs)
+    if kind in ("parsed", "parsed-fields") and pairs and rng.random() < 0.4:
+        # the same field again, in other spellings: a mapping keeps the first spelling and place, and the last value
+        k0 = pairs[0][0]
+        for sp in rng.sample([k0.upper(), k0.lower(), k0, k0.swapcase()], rng.randint(1, 3)):
+            v = str(rng.randint(10, 99))
+            text += "%s: %s\n" % (sp, v)
+            pairs[0] = (k0, v)
     if kind == "parsed":
         return kind, Deb822(text), list(pairs)
     return kind, Deb822(text.splitlines()), list(pairs)
